@@ -52,12 +52,23 @@ package formatutil
 //@   ensures [chunk] result == src[int(rest[i].words[0].pos) - base : (i == len(rest)-1 ? len(src) : int(rest[i+1].words[0].pos) - base)]
 //@
 //@ spec lowWater(s *scanner.Scanner) int := fileBase(s.file) + s.offset - len(s.unitVal)
+//@ # scratchOpen/scratchClose count the '{' and '}' tokens seen so far, independently of the code's depth counter:
+//@ # a statement is cut off only at a semicolon outside all braces, so every chunk has balanced braces (C24: the
+//@ # chunks are the TOP-LEVEL statements)
+//@ ghost scratchOpen int
+//@ ghost scratchClose int
 //@ func splitStmts
 //@   requires scanner.inv(s) && fileSize(s.file) == len(s.src) && scanner.unitOK(s)
-//@   assigns s.ch, s.offset, s.rdOffset, s.lineOffset, s.ErrorCount, s.insertSemi, s.unitVal, s.nParen
+//@   assigns s.ch, s.offset, s.rdOffset, s.lineOffset, s.ErrorCount, s.insertSemi, s.unitVal, s.nParen, scratchOpen, scratchClose
+//@   at entry set scratchOpen = 0
+//@   at entry set scratchClose = 0
+//@   at call append#1 set scratchOpen = scratchOpen + b2i(tok == token.LBRACE)
+//@   at call append#1 set scratchClose = scratchClose + b2i(tok == token.RBRACE)
+//@   at call append#2 assert [cut-only-at-a-semicolon-outside-all-braces] tok == token.SEMICOLON && scratchOpen == scratchClose
 //@   ensures [stmts-ordered] stmtsOK(stmts, fileBase(s.file), fileBase(s.file) + len(s.src))
 //@   ensures [ends-with-semicolon] forall k in 0..len(stmts) :: stmts[k].words[len(stmts[k].words)-1].tok == token.SEMICOLON
 //@ loop splitStmts#1
+//@   invariant [depth-is-the-brace-balance] level == scratchOpen - scratchClose
 //@   invariant scanner.inv(s) && fileSize(s.file) == len(s.src) && scanner.unitOK(s) && s.file == old(s.file) && s.src == old(s.src)
 //@   invariant [shape] forall k in 0..len(stmts) :: len(stmts[k].words) > 0 && 0 <= stmts[k].at && stmts[k].at < len(stmts[k].words) && len(stmts[k].words) <= cap(stmts[k].words)
 //@   invariant [semi] forall k in 0..len(stmts) :: stmts[k].words[len(stmts[k].words)-1].tok == token.SEMICOLON
